@@ -72,7 +72,7 @@ ALGO_ERRORS = ("x509:_requested_SignatureAlgorithm_does_not_match_private_key_ty
                "x509:_unknown_elliptic_curve", "x509:_unknown_SM2_curve")
 
 
-def same(f, io, mo):
+def _same(f, io, mo):
     if f[0] == "E":
         return io == mo              # extension bytes and the fields parsed back (or err create / err parse / PANIC)
     return _same_T(f, io, mo)
@@ -179,7 +179,7 @@ def _predicate_E(f, io):
     return True, ""
 
 
-def predicate(f, io):
+def _predicate(f, io):
     """the property evaluated on what /repo did (no model involved)"""
     if f[0] == "E":
         return _predicate_E(f, io)
@@ -214,7 +214,7 @@ def predicate(f, io):
     return True, ""
 
 
-def classify(f, io):
+def _classify(f, io):
     """kind:signer:created|rejected[:crossfamily|:insecure][:noverify][:diff][:algsurvivor][:survivor]"""
     if f[0] == "E":
         return "E:%s:%s" % (f[2], " ".join(io[:2]) if io and io[0] != "ok" else "ok")
@@ -242,3 +242,19 @@ def classify(f, io):
     return lab
 
 
+
+
+# An observation or model line that does not have the shape its case expects (a truncated file, a line of another
+# run) must not crash the check: it is reported as a failure of that case.
+def _guarded(fn, default):
+    def g(*a):
+        try:
+            return fn(*a)
+        except (IndexError, ValueError, KeyError) as e:
+            return default(e)
+    return g
+
+
+predicate = _guarded(_predicate, lambda e: (False, "malformed observation for this case (%s: %s)" % (type(e).__name__, e)))
+same = _guarded(_same, lambda e: False)
+classify = _guarded(_classify, lambda e: "malformed")
